@@ -72,6 +72,10 @@ struct Result {
   std::vector<std::string> samples;     // JSON values
   std::vector<std::string> violations;  // JSON objects
   long long nviol = 0;
+  long long resume_from = -1;  // checkpoint files only: every case with a smaller id is accounted for in this Result
+  long long ndup = 0;   // violations not recorded because kPerKey records with the same classification key exist
+  std::map<std::string, int> keycount_;
+  static const int kPerKey = 3;
   bool exhaustive = true;
   std::vector<std::string> notes;
   std::map<std::string, int> seen_;
@@ -85,10 +89,36 @@ struct Result {
   }
   // sig: stable signature used for known-finding matching;
   // replay_args: arguments that make this harness re-run just this case.
+  // key (optional): a classification key such that any two violations with the same key are classified
+  // identically by the driver (same signature, same facts the known-findings predicates read); only the
+  // first kPerKey of them are recorded, the rest are counted in ndup / counters["viol:..."].
+  static std::string key_of(const std::string& rec) {
+    if (rec.compare(0, 8, "{\"key\":\"") != 0) return "";
+    size_t e = rec.find("\",\"sig\":", 8);
+    return e == std::string::npos ? "" : rec.substr(8, e - 8);
+  }
+  bool admit(const std::string& rec) {   // per-key cap then global cap; returns false if dropped
+    const std::string k = key_of(rec);
+    if (!k.empty() && ++keycount_[k] > kPerKey) { ++ndup; return false; }
+    if (violations.size() >= kMaxViol) return false;
+    violations.push_back(rec);
+    return true;
+  }
   void violation(const std::string& sig, const std::string& msg,
-                 const std::vector<std::string>& replay_args) {
+                 const std::vector<std::string>& replay_args, const std::string& key = "") {
     ++nviol;
     counters["viol:" + sig]++;
+    if (!key.empty()) {
+      std::string kk;
+      for (char ch : key) kk.push_back((ch == '"' || ch == '\\' || static_cast<unsigned char>(ch) < 0x20) ? '_' : ch);
+      if (keycount_[kk] >= kPerKey) { ++keycount_[kk]; ++ndup; return; }
+      const std::string shown = msg.size() <= 1500 ? msg : msg.substr(0, 1500);
+      std::string j = "{\"key\":\"" + kk + "\",\"sig\":" + jstr(sig) + ",\"msg\":" + jstr(shown) + ",\"replay_args\":[";
+      for (size_t i = 0; i < replay_args.size(); ++i) j += (i ? "," : "") + jstr(replay_args[i]);
+      j += "]}";
+      admit(j);
+      return;
+    }
     // keep the recorded list diverse: at most 2 records per (sig, message head)
     if (violations.size() >= kMaxViol) return;
     // every violation is recorded (the driver must be able to classify each one against the
@@ -107,9 +137,9 @@ struct Result {
     for (auto& kv : o.counters) counters[kv.first] += kv.second;
     for (auto& kv : o.classes) classes[kv.first] += kv.second;
     for (auto& s : o.samples) sample(s);
-    for (auto& v : o.violations)
-      if (violations.size() < kMaxViol) violations.push_back(v);
+    for (auto& v : o.violations) admit(v);
     nviol += o.nviol;
+    ndup += o.ndup;
     exhaustive = exhaustive && o.exhaustive;
     for (auto& n : o.notes)
       if (notes.size() < 50) notes.push_back(n);
@@ -122,7 +152,8 @@ struct Result {
     for (auto& s : samples) f << "s\t" << s << "\n";
     for (auto& v : violations) f << "v\t" << v << "\n";
     for (auto& n : notes) f << "n\t" << hex(n) << "\n";
-    f << "x\t" << (exhaustive ? 1 : 0) << "\t" << nviol << "\n";
+    f << "x\t" << (exhaustive ? 1 : 0) << "\t" << nviol << "\t" << ndup << "\n";
+    if (resume_from >= 0) f << "r\t" << resume_from << "\n";
     f << "END\n";
   }
   bool load_lines(const std::string& path) {
@@ -142,13 +173,17 @@ struct Result {
       } else if (t == 's') {
         sample(rest);
       } else if (t == 'v') {
-        if (violations.size() < kMaxViol) violations.push_back(rest);
+        admit(rest);
       } else if (t == 'n') {
         notes.push_back(unhex(rest));
+      } else if (t == 'r') {
+        resume_from = atoll(rest.c_str());
       } else if (t == 'x') {
         size_t p = rest.find('\t');
         if (rest[0] == '0') exhaustive = false;
         nviol += atoll(rest.c_str() + p + 1);
+        size_t q = rest.find('\t', p + 1);
+        if (q != std::string::npos) ndup += atoll(rest.c_str() + q + 1);
       }
     }
     return ended;
@@ -166,7 +201,7 @@ struct Result {
     for (size_t i = 0; i < samples.size(); ++i) o << (i ? ",\n  " : "") << samples[i];
     o << "],\n \"violations\":[";
     for (size_t i = 0; i < violations.size(); ++i) o << (i ? ",\n  " : "") << violations[i];
-    o << "],\n \"violation_count\":" << nviol << ",\n \"exhaustive\":" << (exhaustive ? "true" : "false") << ",\n \"notes\":[";
+    o << "],\n \"violation_count\":" << nviol << ",\n \"dup_dropped\":" << ndup << ",\n \"exhaustive\":" << (exhaustive ? "true" : "false") << ",\n \"notes\":[";
     for (size_t i = 0; i < notes.size(); ++i) o << (i ? "," : "") << jstr(notes[i]);
     o << "]\n}\n";
     return o.str();
@@ -226,9 +261,22 @@ struct Slot {
 };
 inline Slot*& cur_slot() { static Slot* s = nullptr; return s; }
 inline bool& mark_cases() { static bool m = false; return m; }  // write a marker line to stderr per case (attribution of sanitizer output)
+// Checkpointing (opt-in, PoolOpts.resume): a shard whose case ids increase monotonically saves its Result every
+// few seconds at a case boundary; when the child dies, the parent keeps the checkpoint and the restarted child
+// skips every case below the checkpoint instead of re-executing the whole shard.
+struct Ckpt { Result* r = nullptr; std::string path; double last = 0; };
+inline Ckpt& ckpt() { static Ckpt c; return c; }
 inline void begin_case(long long id, const std::string& what) {
   Slot* s = cur_slot();
   if (!s) return;
+  Ckpt& ck = ckpt();
+  if (ck.r && now_s() - ck.last > 2.0) {
+    ck.r->resume_from = id;
+    ck.r->save_lines(ck.path + ".tmp");
+    ck.r->resume_from = -1;
+    rename((ck.path + ".tmp").c_str(), ck.path.c_str());
+    ck.last = now_s();
+  }
   if (mark_cases()) { char mk[64]; int n = snprintf(mk, sizeof mk, "\n@@case %lld\n", id); if (write(2, mk, n) < 0) {} }
   s->case_id = id;
   s->progress = s->progress + 1;
@@ -242,6 +290,7 @@ inline void tick() { if (Slot* s = cur_slot()) s->progress = s->progress + 1; }
 struct ShardCtl {
   int shard;
   std::set<long long> skip;  // case ids that crashed/hung earlier: skip them
+  long long resume_from = -1;  // PoolOpts.resume: cases with a smaller id are already accounted for (checkpoint of a child that died)
   bool skipped(long long id) const { return skip.count(id) != 0; }
 };
 
@@ -311,6 +360,7 @@ struct PoolOpts {
   int max_restarts = 6;     // per shard
   bool hang_is_violation = false;  // otherwise a hang marks the run non-exhaustive
   bool crash_is_violation = true;  // false: abnormal exits are only counted (auxiliary builds)
+  bool resume = false;      // the shard function enumerates strictly increasing case ids and honours ShardCtl::resume_from
   std::string prop = "";
 };
 
@@ -325,6 +375,8 @@ inline void run_shards(int nshards, const PoolOpts& opts, const std::string& wor
   struct Live { pid_t pid; int shard; Slot* slot; long long last_progress; double last_change; };
   std::vector<Live> live;
   std::vector<std::set<long long>> skips(nshards);
+  std::vector<long long> resume(nshards, -1);
+  std::vector<Result> partial(opts.resume ? nshards : 0);
   std::vector<int> restarts(nshards, 0);
   std::vector<int> queue;
   for (int i = nshards - 1; i >= 0; --i) queue.push_back(i);
@@ -344,6 +396,7 @@ inline void run_shards(int nshards, const PoolOpts& opts, const std::string& wor
       memset(slot, 0, sizeof(Slot));
       slot->case_id = -1;
       unlink(res_path(sh).c_str());
+      unlink((res_path(sh) + ".ckpt").c_str());
       fflush(stdout);
       fflush(stderr);
       pid_t pid = fork();
@@ -352,8 +405,11 @@ inline void run_shards(int nshards, const PoolOpts& opts, const std::string& wor
         if (fd >= 0) { dup2(fd, 2); close(fd); }
         cur_slot() = slot;
         ShardCtl ctl{sh, skips[sh]};
+        ctl.resume_from = resume[sh];
         Result r;
+        if (opts.resume) { ckpt().r = &r; ckpt().path = res_path(sh) + ".ckpt"; ckpt().last = now_s(); }
         fn(ctl, r);
+        ckpt().r = nullptr;
         r.save_lines(res_path(sh));
         fflush(nullptr);
         _exit(0);
@@ -385,8 +441,18 @@ inline void run_shards(int nshards, const PoolOpts& opts, const std::string& wor
       bool ok = !hung && WIFEXITED(st) && WEXITSTATUS(st) == 0;
       Result r;
       if (ok && r.load_lines(res_path(L.shard))) {
+        if (opts.resume) total->merge(partial[L.shard]);
         total->merge(r);
         continue;
+      }
+      if (opts.resume) {  // keep what the dead child had checkpointed; the restart resumes behind it
+        Result ck;
+        if (ck.load_lines(res_path(L.shard) + ".ckpt") && ck.resume_from > resume[L.shard]) {
+          resume[L.shard] = ck.resume_from;
+          ck.resume_from = -1;
+          partial[L.shard].merge(ck);
+          total->count("shard_resumes");
+        }
       }
       // abnormal end
       long long cid = L.slot->case_id;
@@ -416,6 +482,7 @@ inline void run_shards(int nshards, const PoolOpts& opts, const std::string& wor
         queue.push_back(L.shard);
       } else {
         total->exhaustive = false;
+        if (opts.resume) total->merge(partial[L.shard]);
         total->note("shard " + std::to_string(L.shard) + " abandoned after repeated abnormal exits");
       }
     }
